@@ -17,7 +17,7 @@ from .contract import Contract, Loop
 
 DROPPED_CALLS = ('logging.debug', 'logging.info', 'logging.warning', 'logging.error',
                  'print', 'sys.stdout.write', 'sys.stdout.flush')
-LIB_CONSTS = {'io.SEEK_SET': 0, 'io.SEEK_CUR': 1, 'io.SEEK_END': 2, 'AES.MODE_ECB': 1}
+LIB_CONSTS = {'io.SEEK_SET': 0, 'io.SEEK_CUR': 1, 'io.SEEK_END': 2, 'os.SEEK_SET': 0, 'os.SEEK_CUR': 1, 'os.SEEK_END': 2, 'AES.MODE_ECB': 1}
 EXC_PARENTS = {'KeyError': 'LookupError', 'IndexError': 'LookupError', 'LookupError': 'Exception',
                'ValueError': 'Exception', 'TypeError': 'Exception', 'AttributeError': 'Exception',
                'AssertionError': 'Exception', 'ZeroDivisionError': 'ArithmeticError',
@@ -271,6 +271,7 @@ class Engine:
 
     def _run_once(self, c, extra_requires, pin, collect_outcomes):
         env = c.env(self.world)
+        self.weakened_by = None
         self.env = env
         self.top_env = env
         self.ghost_env = {}
@@ -439,6 +440,8 @@ class Engine:
         self.run.counts[key] = n + 1
         if (key + (n,)) in self.obligations:
             return          # same point of the same path prefix, reached again by a replay
+        if getattr(self, 'weakened_by', None):
+            info = dict(info or {}, weakened_by=self.weakened_by)
         ob = self.obligations[key + (n,)] = Obligation(name, kind, list(self.pc), goal, self.c.props,
                                                        self.c.key, path, info)
         ob.defs = list(getattr(self, 'defs', []))
@@ -2627,7 +2630,11 @@ class Engine:
         if ftxt == 'bound' and len(e.args) == 1 and isinstance(e.args[0], ast.Constant) and isinstance(e.args[0].value, str):
             # bound('x'): is the local x assigned on this path yet?  lets an invariant speak about a temporary only where the
             # code has one (`(x == ...) if bound('x') else True`)
-            return self.lookup_scope(e.args[0].value) is not None
+            found = self.lookup_scope(e.args[0].value) is not None
+            if not found:
+                # the clause falls away for this code: what fails from here on is trusted only if it replays natively
+                self.weakened_by = e.args[0].value
+            return found
         if ftxt in ('forall', 'exists'):
             lam, lo, hi = e.args
             if not isinstance(lam, ast.Lambda):
